@@ -254,7 +254,9 @@ def run(ctx, H):
             open(lock_dst, "w").write(open(os.path.join(C.REPO, "Cargo.lock")).read())
         os.makedirs(os.path.join(REJ, "src"), exist_ok=True)
         open(os.path.join(REJ, "src", "lib.rs"), "w").write("\n".join(lines) + "\n")
+        marker, hsh = C.ensure_fresh_repo_build(REJ, os.path.join(C.TARGET, "reject_marker"))
         rc, out = C.sh(["cargo", "check", "--offline", "--message-format=json", "--quiet"], cwd=REJ, timeout=3000)
+        C.mark_fresh(marker, hsh)
     diags = []
     for line in out.split("\n"):
         line = line.strip()
